@@ -477,6 +477,12 @@ func doSearch(eng Engine, res *Result, name, prop, tier, variant string) {
 			}
 			seenKeys[o.Violation.Key] = true
 			sp, so, shrunk := shrink(eng, plan, o, prop, shrinkBudget)
+			if so.Violation.Key != o.Violation.Key {
+				if seenKeys[so.Violation.Key] {
+					continue
+				}
+				seenKeys[so.Violation.Key] = true
+			}
 			pj, _ := json.Marshal(sp)
 			res.Violations = append(res.Violations, Replay{
 				Property: prop, Engine: name, Variant: variant, Seed: base, RunSeed: rs,
@@ -508,6 +514,11 @@ func shrink(eng Engine, plan any, o Outcome, prop string, budget time.Duration) 
 	if p2, ok := roundTrip(eng, plan); ok {
 		if o2 := run(p2); pick(&o2, key) {
 			plan, o = p2, o2
+		} else if raceBuild && o2.Violation != nil && strings.Contains(key, "/data-race/") && strings.Contains(o2.Violation.Key, "/data-race/") {
+			// which pairs of accesses the race detector still reports depends on what
+			// the process has reported before: what a fresh process says about this
+			// plan is the reproducible verdict, continue with its first report
+			plan, o, key = p2, o2, o2.Violation.Key
 		} else {
 			return plan, o, false
 		}
